@@ -16,9 +16,75 @@ pub struct Case {
     pub program: Program,
     #[serde(default)]
     pub steps: Vec<crate::c10::StepSpec>,
+    /// built-in probe: while an event is being handled another thread calls `Builder::build` (which has to wait
+    /// for the simulation lock); the running simulation's clock must not be touched
+    #[serde(default)]
+    pub concurrent_build: bool,
+}
+
+struct ProbeApp {
+    seen: Vec<(u128, u128, u128)>,
+    waiter: Option<std::thread::JoinHandle<()>>,
+}
+struct Noop;
+impl des::prelude::Application for Noop {
+    type EventSet = ();
+    type Lifecycle = ();
+}
+#[derive(Debug)]
+struct ProbeEv(u128);
+impl des::prelude::Application for ProbeApp {
+    type EventSet = ProbeEv;
+    type Lifecycle = ();
+}
+impl des::prelude::Event<ProbeApp> for ProbeEv {
+    fn handle(self, rt: &mut des::prelude::Runtime<ProbeApp>) {
+        use des::prelude::*;
+        let before = SimTime::now().as_nanos();
+        if rt.app.waiter.is_none() {
+            rt.app.waiter = Some(std::thread::spawn(|| {
+                // blocks until the running simulation is gone
+                let other = Builder::seeded(5).quiet().start_time(SimTime::ZERO).build(Noop);
+                drop(other);
+            }));
+            // give the other thread the opportunity to run into the lock (the oracle does not depend on it)
+            std::thread::sleep(std::time::Duration::from_millis(40));
+        }
+        let after = SimTime::now().as_nanos();
+        rt.app.seen.push((self.0, before, after));
+    }
+}
+
+fn concurrent_build_probe() -> Result<(), Failure> {
+    use des::prelude::*;
+    let mut rt = Builder::seeded(1).quiet().start_time(SimTime::from_duration(Duration::from_secs(1))).build(ProbeApp {
+        seen: Vec::new(),
+        waiter: None,
+    });
+    for t in [2_000_000_000u128, 2_000_000_001, 5_000_000_000] {
+        rt.add_event(ProbeEv(t), SimTime::from_duration(Duration::from_nanos(t as u64)));
+    }
+    let res = rt.run();
+    let Ok((mut app, end, _)) = res else { vfail!("run-returned-error", "run() returned an error") };
+    if let Some(h) = app.waiter.take() {
+        let _ = h.join();
+    }
+    for (t, before, after) in &app.seen {
+        vensure!(
+            before == t && after == t,
+            "clock-changed-by-concurrent-build",
+            "while the event scheduled for {t} ns was handled, another thread called Builder::build: SimTime::now() was {before} ns at entry and {after} ns afterwards"
+        );
+    }
+    vensure!(end.as_nanos() == 5_000_000_000 && app.seen.len() == 3, "end-time-mismatch", "run ended at {} ns after {} events", end.as_nanos(), app.seen.len());
+    Ok(())
 }
 
 pub fn check(case: &Case) -> Result<(bool, Vec<&'static str>), Failure> {
+    if case.concurrent_build {
+        concurrent_build_probe()?;
+        return Ok((true, vec!["concurrent-build-attempt"]));
+    }
     let p = &case.program;
     let res = prog::resolve(p);
     let steps: Option<Vec<prog::Step>> = if case.steps.is_empty() {
@@ -158,11 +224,12 @@ impl Prop for C02 {
         }
     }
     fn strategy(tier: Tier) -> BoxedStrategy<Case> {
-        let plain = prog::program_strategy(tier.pick(40, 150), false, true).prop_map(|program| Case { program, steps: Vec::new() });
+        let plain = prog::program_strategy(tier.pick(40, 150), false, true).prop_map(|program| Case { program, steps: Vec::new(), concurrent_build: false });
         // the same oracle on runs that are driven in steps with events added while paused (C10's schedule generator)
         let stepped = crate::c10::C10::strategy(tier).prop_map(|c| Case {
             program: c.program,
             steps: c.steps,
+            concurrent_build: false,
         });
         prop_oneof![1 => plain, 1 => stepped].boxed()
     }
@@ -178,5 +245,20 @@ impl Prop for C02 {
             return Vec::new();
         }
         heap_backend_extra("C02", seed, ev)
+    }
+    fn builtin_cases() -> Vec<(String, Case)> {
+        vec![(
+            "build-from-another-thread-while-running".into(),
+            Case {
+                program: Program {
+                    params: crate::cq::QParams { n: 1028, t_ns: 2_500_000 },
+                    start_ns: 0,
+                    nodes: vec![],
+                    pre_past: None,
+                },
+                steps: vec![],
+                concurrent_build: true,
+            },
+        )]
     }
 }
